@@ -25,7 +25,9 @@ RULE = ('PWMs 4 x w (w 1-7 quick, up to 30 thorough; float64 and float32 log-odd
         'column (uniform / near-uniform column, eps up to 0.1, bins down to 0.01) first, in the middle, last and '
         'everywhere; compiled _pwm_to_mapping is called in a worker process (a dead interpreter = failing input); '
         'kind fimo: the table fimo() itself passes to _fast_hits in the last of 2-3 calls on the same motif that '
-        'differ in eps / bin_size / reverse_complement; '
+        'differ in eps / bin_size / reverse_complement, and the table of motif number `which` (forward or reverse '
+        'complement, width-1 motifs included) among up to 6 motifs of one call; direct calls with Fortran-ordered and '
+        'sliced arrays, int and numpy.float64 bin_size, the same array twice (argument must be unchanged); '
         'non-trivial = a table with >= 3 distinct finite probabilities and at least one -inf bin')
 TRUSTED = ['C11: kind fimo observes the (smallest, table) arguments of _fast_hits by wrapping the module attribute at '
            'run time in the worker; nothing in /repo is touched',
